@@ -277,6 +277,13 @@ func (s *Error) UnmarshalXML(d *xml.Decoder, start xml.StartElement) error {
 			if err = d.Skip(); err != nil {
 				return err
 			}
+		default:
+			// An application-specific condition (or any other foreign element):
+			// skip the whole element so that its end token is not mistaken for
+			// the end of the stream error.
+			if err = d.Skip(); err != nil {
+				return err
+			}
 		}
 	}
 }
